@@ -185,6 +185,25 @@ example : readMesh toyCodingA defaultReader (refEncode toyCodingA exMeshA)
       · exact (locatedNamedAB_sound (specProps exMeshA) _ _ (by decide)).loc
       · exact (locatedNamedAB_sound (specProps exMeshA) _ _ (by decide)).loc)
 
+/-- the same vertex data as an ASCII point cloud -/
+example : ∃ m, readMesh toyCodingA defaultReader (refEncode toyCodingA { exMeshA with face := none }) = .ok m :=
+  ⟨_, ply_reads_spec_pointcloud_ascii_bytes toyCodingA toyLaw toyIntLaw { exMeshA with face := none }
+    ⟨by decide, by intro i hi; simp [exMeshA, exMesh, exFile] at hi, by decide, by intro fe h; simp at h⟩
+    rfl (by decide) rfl (by decide)
+    (by
+      intro r hr d hd
+      simp only [exMeshA, List.mem_cons, List.not_mem_nil, or_false] at hr
+      rcases hr with rfl | rfl | rfl | rfl <;>
+        (simp only [List.mem_cons, List.not_mem_nil, or_false] at hd
+         rcases hd with rfl | rfl | rfl | rfl <;> trivial))
+    exBlA (by decide)
+    (by
+      intro p hp
+      simp only [exBlA, List.mem_cons, List.not_mem_nil, or_false] at hp
+      rcases hp with rfl | rfl
+      · exact (locatedNamedAB_sound (specProps exMeshA) _ _ (by decide)).loc
+      · exact (locatedNamedAB_sound (specProps exMeshA) _ _ (by decide)).loc)⟩
+
 /-- the ASCII file with a pentagon in second place is rejected -/
 example : readMesh toyCodingA defaultReader (refEncode toyCodingA
       { exMeshA with face := some { exMesh.exFaces with faces := [⟨[0, 1, 2], [], []⟩, ⟨[0, 1, 2, 3, 0], [], [5]⟩, ⟨[1, 2, 3], [], []⟩] } })
